@@ -233,4 +233,113 @@ PROPS = {
         note="E-argparse (trusted contract on _parse_args: one record per dest), trusted contract on anonymize_files "
              "as seen from main; int(str) modelled on the plain-digit domain",
     ),
+    "C10": dict(
+        level="other",
+        lemmas=[],
+        functions=[M_AF + "FileAnonymizer.__init__", M_SI + "_anonymize_value"],
+        standins=[("rt_files", "C10")],
+        design_ref="7/C10",
+        technique="contract on FileAnonymizer.__init__ (the word stage receives built-in + user reserved words, the "
+                  "user's words are in the per-instance set, no global set is written) and the reserved-word clause of "
+                  "_anonymize_value, discharged by pyvc; 'no listed word survives' depends on re.sub scanning and is "
+                  "checked bounded",
+        text="Proved: the reserved set handed to the word anonymizer and to secret anonymization is exactly built-in "
+             "plus user words; a secret value that is a reserved word is returned as written.  NOT proved: that no "
+             "listed word survives in any letter case (alternation order, re.sub scanning, IGNORECASE) and the "
+             "conflicting-word computation of SensitiveWordAnonymizer (trusted constructor contract) - bounded over 5 "
+             "word lists x 3 reserved sets x hash seeds.",
+        note="E-resub; trusted contract on SensitiveWordAnonymizer.__init__/anonymize (not verified)",
+    ),
+    "C12": dict(
+        level="other",
+        lemmas=[],
+        functions=[M_AF + "FileAnonymizer.anonymize_io", M_SI + "_split_line", M_SI + "_extract_enclosing_text"],
+        standins=[("rt_files", "C12")],
+        design_ref="7/C12",
+        technique="loop invariant + ghost call trace on anonymize_io (one write per input line, in order, each the "
+                  "result of the stage chain applied to that line), contracts on _split_line and "
+                  "_extract_enclosing_text (outer whitespace and enclosing text conserved), discharged by pyvc",
+        text="Proved: anonymize_io writes exactly one line per line read, in order, and what it writes for a line is "
+             "the chain of the enabled stages applied to that line only; _split_line returns the leading/trailing "
+             "whitespace of the line and _extract_enclosing_text conserves head+value+tail.  NOT proved: that each "
+             "stage carries non-sensitive tokens verbatim (regex capture extents; trusted stage contracts) - bounded "
+             "over 15 feature subsets x 5 texts.",
+        note="trusted contracts on replace_matching_item, SensitiveWordAnonymizer.anonymize, anonymize_as_numbers; E-strws; E-os (readlines)",
+    ),
+    "C13": dict(
+        level="other",
+        lemmas=[],
+        functions=[M_IP + "_generate_bit_from_hash", M_IP + "_BaseIpAnonymizer.__init__", M_IP + "IpAnonymizer.__init__",
+                   M_IP + "IpV6Anonymizer.__init__", M_SI + "_anonymize_value", M_SI + "_check_sensitive_item_format",
+                   M_SI + "_extract_enclosing_text", M_SI + "AsNumberAnonymizer._generate_as_number_replacement",
+                   M_JS + "juniper_nonrandom_encrypt", M_JS + "_gap_encode", M_AF + "FileAnonymizer.__init__",
+                   M_AF + "FileAnonymizer.anonymize_io"],
+        only=["#deterministic", "#frame", "post.2", "post.1"],
+        standins=[("rt_files", "C13")],
+        design_ref="7/C13",
+        technique="determinism and frame obligations of pyvc on every function under contract: nondeterministic "
+                  "sources (random.choice, library-generated salts) are havoc'd symbols that must not reach results or "
+                  "post-state; writes to module-level containers and to caller-owned lists are frame violations",
+        text="Proved: no result or post-state of the functions under contract depends on a havoc'd source except the "
+             "generated salt when none is supplied (which is logged at WARNING and used by every stage); no "
+             "module-level container is written; the caller's option lists are not modified.  Hash-seed dependence of "
+             "set iteration inside the trusted word-regex construction is checked bounded (subprocesses with "
+             "different PYTHONHASHSEED).",
+        note="purity of hashlib/passlib/ipaddress is assumed; trusted contracts as listed under C10/C12",
+    ),
+    "C14": dict(
+        level="other",
+        lemmas=IP_LEMMAS,
+        functions=[M_IP + "_anonymize_match@v4", M_IP + "_anonymize_match@v6", M_IP + "anonymize_ip_addr@v4",
+                   M_IP + "anonymize_ip_addr@v6", M_IP + "IpAnonymizer.should_anonymize", M_IP + "IpAnonymizer._is_mask",
+                   M_IP + "_BaseIpAnonymizer.anonymize", M_IP + "_BaseIpAnonymizer._anonymize_bits",
+                   M_IP + "_BaseIpAnonymizer.deanonymize", M_IP + "_BaseIpAnonymizer._deanonymize_bits",
+                   M_SI + "_anonymize_value", M_SI + "_extract_enclosing_text", M_SI + "_check_sensitive_item_format",
+                   M_SI + "_split_line", M_SI + "AsNumberAnonymizer._generate_as_number_replacement",
+                   M_JS + "juniper_nonrandom_encrypt", M_JS + "_gap_encode", M_JS + "_gap", M_JS + "_fixedc",
+                   M_AF + "FileAnonymizer.anonymize_io"],
+        only=["#safe", "#raises", "#call", "decreases", "returns_a_value", "#enc", "#unroll"],
+        standins=[("rt_files", "C14")],
+        design_ref="7/C14",
+        technique="exception-freedom obligations of pyvc (every indexing, dict lookup, int(), chr(), library "
+                  "precondition and call-site precondition; termination measures) on the functions in reach, for any "
+                  "line, any salt string and valid options",
+        text="Proved: no operation of the listed functions can raise for any input (text the address parser rejects "
+             "is returned unchanged; md5 salt capped at 8; any salt string for $9$; bidict value uniqueness; "
+             "terminating loops/recursion).  Out of reach: exceptions inside the 55 line regexes' re.search/sub on "
+             "opaque patterns, inside replace_matching_item and the word anonymizer (trusted contracts) and inside "
+             "library code under its assumed preconditions - bounded over 7 salts x 5 feature sets x hostile lines.",
+        note="E-passlib/E-ipaddress/E-bidict preconditions as stated; lone surrogates excluded",
+    ),
+    "C15": dict(
+        level="proof",
+        lemmas=[],
+        functions=[M_AF + "FileAnonymizer.__init__", M_AF + "FileAnonymizer.anonymize_io"],
+        standins=[("rt_files", "C15")],
+        design_ref="7/C15",
+        technique="contract on FileAnonymizer.__init__ (each stage configured from its own options and the common salt "
+                  "only) + ghost call trace on anonymize_io's loop body (stages uninterpreted): fixed order secrets, "
+                  "IPv6, IPv4, words, AS numbers, each fed the previous result, absent stages skipped (pyvc)",
+        text="With the stages uninterpreted, the per-line term written by anonymize_io is "
+             "S_as(S_word(S_ip4(S_ip6(S_pwd(line))))) with absent stages = identity, for every feature subset "
+             "(undo passed to both IP stages), and the configuration of each stage object is a function of that "
+             "stage's own options and the salt only - which is composition of the single-feature anonymizers.",
+        note="stage functions are contracts (trusted for secrets/words/AS numbers, verified for IP); state shared "
+             "between stages does not exist (frame of each stage contract)",
+    ),
+    "C16": dict(
+        level="other",
+        lemmas=[],
+        functions=[M_AF + "FileAnonymizer.anonymize_io", M_NC + "main"],
+        standins=[("rt_files", "C16")],
+        design_ref="7/C16",
+        technique="contract on anonymize_io (reading fails before any state change or write: exceptional "
+                  "postcondition) and on main (anonymize_files is the only writer, called once) by pyvc; directory walk, "
+                  "path mirroring and what the OS leaves on disk are checked bounded",
+        text="Proved: a file whose reading fails leaves the shared secret lookup and the output stream untouched "
+             "(fault isolation at the stream level) and every entry point funnels into anonymize_io.  NOT decidable by "
+             "contracts within reach: os.walk / open / makedirs effects - bounded over generated trees with hidden "
+             "files, Unicode names, undecodable bytes early and late, pre-existing outputs and a directory in the way.",
+        note="E-os; anonymize_files itself (os.walk loop, try/except per file) is not under contract",
+    ),
 }
